@@ -1,7 +1,9 @@
 SPEC = {
     "id": "C05",
     "drivers": [{"pkg": "internal/corerad", "test": "TestVerifC05", "newgo": True, "timeout": 1200, "arch386": ["quick", "thorough"]},
-                {"pkg": "internal/corerad", "test": "TestVerifC05Stall", "newgo": True, "timeout": 1200}],
+                {"pkg": "internal/corerad", "test": "TestVerifC05Stall", "newgo": True, "timeout": 1200},
+                # the connection dies with solicitations from :: in the queue: the next incarnation still advertises for ever
+                {"pkg": "internal/corerad", "test": "TestVerifC05Redial", "newgo": True, "timeout": 600, "arch386": []}],
     "rule": "(i) multicastDelay called with an injected draw on (min,max) pairs produced by the real config.Parse: every "
             "whole-second max 4..1800 s with the default min x i in {2,3} x draws {0, range-1, a .5 s landing}; explicit "
             "min at 3s-1ns/3s/3s+1ns/upper-1s/upper/upper+1ns/upper+1s/max for sampled (quick) or all (thorough) max x i in "
